@@ -3,6 +3,7 @@
 package main
 
 import (
+	"math/big"
 	"bytes"
 	"encoding/binary"
 	"fmt"
@@ -152,6 +153,46 @@ func hostileInputs(tier string, r *rng) []hostile {
 			add("jks:fieldsweep", "k.jks", d)
 		}
 	}
+	// 3b. keystore entries the pre-check does not walk (unknown type, secret key) followed by / containing length fields
+	for _, magic := range [][]byte{{0xFE, 0xED, 0xFE, 0xED}, {0xCE, 0xCE, 0xCE, 0xCE}} {
+		for _, typ := range []uint32{0, 3, 4, 5, 0x7FFFFFFF, 0xFFFFFFFF} {
+			for _, l := range []uint32{0x7FFFFFFF, 0xFFFFFFFF, 0x10000000} {
+				var b bytes.Buffer
+				b.Write(magic)
+				binary.Write(&b, binary.BigEndian, uint32(2))
+				binary.Write(&b, binary.BigEndian, uint32(2))
+				binary.Write(&b, binary.BigEndian, typ) // first entry: not walked
+				binary.Write(&b, binary.BigEndian, uint16(0))
+				binary.Write(&b, binary.BigEndian, uint64(0))
+				binary.Write(&b, binary.BigEndian, uint32(1)) // second entry: private key with a lying key length
+				binary.Write(&b, binary.BigEndian, uint16(0))
+				binary.Write(&b, binary.BigEndian, uint64(0))
+				binary.Write(&b, binary.BigEndian, l)
+				add("jks:unwalked-then-length", "k.jks", b.Bytes())
+			}
+		}
+		// secret-key entry: Java serialization stream whose block-data / long-string length lies
+		for _, l := range []uint32{0x7FFFFFFF, 0xFFFFFFFF, 0x10000000, 0x80000000} {
+			for _, long := range []bool{false, true} {
+				var b bytes.Buffer
+				b.Write(magic)
+				binary.Write(&b, binary.BigEndian, uint32(2))
+				binary.Write(&b, binary.BigEndian, uint32(1))
+				binary.Write(&b, binary.BigEndian, uint32(3))
+				binary.Write(&b, binary.BigEndian, uint16(0))
+				binary.Write(&b, binary.BigEndian, uint64(0))
+				b.Write([]byte{0xAC, 0xED, 0x00, 0x05})
+				if long {
+					b.WriteByte(0x7C) // TC_LONGSTRING, 64-bit length
+					binary.Write(&b, binary.BigEndian, uint64(l))
+				} else {
+					b.WriteByte(0x7A) // TC_BLOCKDATALONG, 32-bit length
+					binary.Write(&b, binary.BigEndian, l)
+				}
+				add("jks:secretkey-stream-length", "k.jceks", b.Bytes())
+			}
+		}
+	}
 	// 4. RPM: index counts / offsets / types at boundaries
 	for _, cnt := range boundaries {
 		for _, typ := range []int{1, 2, 3, 4, 5, 6, 7, 8, 9, 0, 10} {
@@ -236,6 +277,17 @@ func hostileInputs(tier string, r *rng) []hostile {
 		sk := &pgpKeyMat{algo: 18, created: 1700000000, body: sb}
 		b2 := buildPGP(good, []pgpIdentity{{name: "E <e@x>", flags: 3, sigCreated: 1700000000, lifetime: -1}}, []pgpSubkey{{key: sk, flags: 0x0c, sigCreated: 1700000000, lifetime: -1}}, false)
 		add("pgp:x25519-pointlen", "k.asc", pgpArmor("PGP PUBLIC KEY BLOCK", b2.binary))
+	}
+	// 5a. OpenPGP DSA key over an oversized group (p, q of 16384 bits): one self-signature costs a 32768-bit exponentiation
+	for _, bits := range []int{4096, 32768} {
+		p, q, g, y := oddOfBits(r, bits), oddOfBits(r, bits), oddOfBits(r, bits-1), oddOfBits(r, bits-1)
+		body := keyHead(1700000000, 17)
+		for _, x := range []*big.Int{p, q, g, y} {
+			body = append(body, pgpMPI(x.Bytes())...)
+		}
+		km := &pgpKeyMat{algo: 17, created: 1700000000, body: body, bits: bits, signer: func(d []byte) []byte { return append(pgpMPI([]byte{1}), pgpMPI([]byte{2})...) }}
+		b := buildPGP(km, []pgpIdentity{{name: "D <d@x>", flags: 3, sigCreated: 1700000000, lifetime: -1}}, nil, false)
+		add(fmt.Sprintf("pgp:dsa-group-%d", bits), "k.asc", pgpArmor("PGP PUBLIC KEY BLOCK", b.binary))
 	}
 	// 5b. OpenPGP packets whose length field lies: every packet of a small key re-framed with a 4-octet old-format and a
 	//     5-octet new-format length set to boundary values (the body stays as it is)
@@ -408,6 +460,64 @@ func bigInputs(tier string, r *rng) []hostile {
 			}
 			b.Write(make([]byte, store))
 			hs = append(hs, hostile{tag + fmt.Sprintf("rpm-overlap-type%d", typ), "p.rpm", b.Bytes()})
+		}
+		// RPM: many STRING entries that all point at the start of one long string (each count is 1, the strings overlap)
+		for _, typ := range []uint32{6, 8, 9} {
+			nEnt := n / 32
+			store := n - 96 - 32 - 16 - 16*nEnt
+			if store < 16 {
+				continue
+			}
+			store -= store % 8
+			var b bytes.Buffer
+			lead := make([]byte, 96)
+			copy(lead, []byte{0xED, 0xAB, 0xEE, 0xDB, 3, 0})
+			b.Write(lead)
+			b.Write([]byte{0x8E, 0xAD, 0xE8, 1, 0, 0, 0, 0, 0, 0, 0, 1, 0, 0, 0, 8})
+			b.Write([]byte{0, 0, 1, 13, 0, 0, 0, 6, 0, 0, 0, 0, 0, 0, 0, 1})
+			b.Write([]byte{'x', 0, 0, 0, 0, 0, 0, 0})
+			b.Write([]byte{0x8E, 0xAD, 0xE8, 1, 0, 0, 0, 0})
+			binary.Write(&b, binary.BigEndian, uint32(nEnt))
+			binary.Write(&b, binary.BigEndian, uint32(store))
+			for i := 0; i < nEnt; i++ {
+				binary.Write(&b, binary.BigEndian, uint32(1000+i))
+				binary.Write(&b, binary.BigEndian, typ)
+				binary.Write(&b, binary.BigEndian, uint32(0))
+				binary.Write(&b, binary.BigEndian, uint32(1))
+			}
+			str := bytes.Repeat([]byte{'s'}, store)
+			str[store-1] = 0
+			b.Write(str)
+			hs = append(hs, hostile{tag + fmt.Sprintf("rpm-overlap-strings-type%d", typ), "p.rpm", b.Bytes()})
+		}
+		// JCEKS secret-key entry: a serialized object with a chain of K superclasses and M small objects of that class
+		{
+			utf := func(s string) []byte { return append([]byte{byte(len(s) >> 8), byte(len(s))}, s...) }
+			classdesc := func(name string, flags byte, super []byte) []byte {
+				d := append([]byte{0x72}, utf(name)...)
+				d = append(d, 0, 0, 0, 0, 0, 0, 0, 0, flags, 0, 0, 0x78)
+				return append(d, super...)
+			}
+			k := n / 44
+			m := n / 12
+			chain := []byte{0x70}
+			for i := k - 1; i >= 0; i-- {
+				chain = classdesc(fmt.Sprintf("c%d", i), 0x02, chain)
+			}
+			var objs []byte
+			for i := 0; i < m; i++ {
+				objs = append(objs, 0x73, 0x71, 0x00, 0x7e, 0x00, 0x02)
+			}
+			top := append([]byte{0x73}, classdesc("T", 0x03, []byte{0x70})...)
+			top = append(top, chain...)
+			top = append(top, objs...)
+			top = append(top, 0x78)
+			var b bytes.Buffer
+			b.Write([]byte{0xCE, 0xCE, 0xCE, 0xCE, 0, 0, 0, 2, 0, 0, 0, 1, 0, 0, 0, 3, 0, 0})
+			b.Write(make([]byte, 8))
+			b.Write([]byte{0xAC, 0xED, 0x00, 0x05})
+			b.Write(top)
+			hs = append(hs, hostile{tag + "jceks-class-chain", "k.jceks", b.Bytes()})
 		}
 		// OpenPGP: one packet whose length field promises more than is there; many tiny packets
 		hs = append(hs, hostile{tag + "pgp-tiny-packets", "k.gpg", fill(n, "\xb4\x01a")})
